@@ -50,6 +50,8 @@ def gen_case(ctx, i):
     else:
         c.update(c_scale=float(r.choice([1.0, 0.5, 0.75])), i_scale=float(r.choice([1.0, 0.5, 0.75])), c_stride=int(r.choice([2, 4, 8])), i_stride=int(r.choice([1, 2, 4])),
                  n_animals=int(r.integers(1, 5)), missing_p=float(r.choice([0.0, 0.25])), anchor=[None, 0, "missing"][int(r.integers(0, 3))], crop=int(r.choice([64, 96, 128])))
+        if c["refinement"] == "integral":
+            c["margin"] = 20.0  # integral refinement of a *centroid* near the image border is biased (known finding) and would shift the crop off the animal
         if r.random() < 0.35:  # frames without any animal mixed into the video (they share batches with populated frames)
             c.update(empty_p=0.4, n_frames=int(r.integers(3, 7)))
     return c
